@@ -84,3 +84,41 @@ Proof.
   unfold py_keys. induction d as [|[k' v'] d IH]; cbn; [auto|].
   destruct (String.eqb_spec k' k) as [->|N]; cbn; auto.
 Qed.
+
+(* ---------------------------------------------------------------------------------------------- str operations
+   Defined on the character list of the string (la / sla are the stdlib conversions), so that the *Equiv.v files
+   can relate them to hand models written over `list ascii`. *)
+Definition la : string -> list ascii := list_ascii_of_string.
+Definition sla : list ascii -> string := string_of_list_ascii.
+Fixpoint la_prefixb (p s : list ascii) : bool :=
+  match p, s with
+  | [], _ => true
+  | a :: p', b :: s' => Ascii.eqb a b && la_prefixb p' s'
+  | _ :: _, [] => false
+  end.
+(* s.find(t): index of the leftmost occurrence, -1 when there is none ("".find("") = 0) *)
+Fixpoint la_find (t s : list ascii) : option nat :=
+  if la_prefixb t s then Some 0%nat else
+  match s with [] => None | _ :: s' => option_map S (la_find t s') end.
+Definition py_find (s t : string) : Z :=
+  match la_find (la t) (la s) with Some i => Z.of_nat i | None => (-1)%Z end.
+(* `p in s` for two str: substring test ("" is in every string) *)
+Fixpoint la_contains (p s : list ascii) : bool :=
+  la_prefixb p s || match s with [] => false | _ :: s' => la_contains p s' end.
+Definition py_contains (p s : string) : bool := la_contains (la p) (la s).
+(* slice bounds: negative bounds count from the end, everything is clamped to [0, len] *)
+Definition py_norm (len : nat) (i : Z) : nat :=
+  if (i <? 0)%Z then Z.to_nat (Z.max 0 (i + Z.of_nat len)) else Nat.min len (Z.to_nat i).
+Definition py_slice (s : string) (lo hi : option Z) : string :=
+  let l := la s in let n := List.length l in
+  let a := match lo with Some i => py_norm n i | None => 0%nat end in
+  let b := match hi with Some i => py_norm n i | None => n end in
+  sla (firstn (b - a) (skipn a l)).
+(* s[i]: negative index wraps once; out of range = IndexError = None *)
+Definition py_index (s : string) (i : Z) : option string :=
+  let l := la s in
+  let j := if (i <? 0)%Z then (i + Z.of_nat (List.length l))%Z else i in
+  if (j <? 0)%Z then None else
+  match nth_error l (Z.to_nat j) with Some c => Some (sla [c]) | None => None end.
+(* a % b on ints (sign of the divisor, like Z.modulo); b = 0 raises ZeroDivisionError = None *)
+Definition py_mod (a b : Z) : option Z := if (b =? 0)%Z then None else Some (a mod b)%Z.
